@@ -263,11 +263,14 @@ static void b_opt_setnstr(cfg_type_t t, unsigned n, unsigned idx)
 {
 	cfg_opt_t o; snap_t s; int rc;
 	char *nv = nondet_bool() ? cfgv_string(2) : NULL;
-	char *olds[NV + 1];
+	char *olds[NV + 1]; char nvcopy[3] = { 0, 0, 0 }; _Bool aliased = 0;
 	mk_opt(&o, t, n, 0);
 	in_index = idx;
 	snap(&o, &s);
 	for (unsigned i = 0; i < NV; i++) olds[i] = (t == CFGT_STR && i < in_n) ? o.values[i]->string : NULL;
+	/* the new value may be the slot's own current string: set(get()) must be the identity */
+	if (t == CFGT_STR && nondet_bool() && in_index < in_n && o.values[in_index]->string) { if (nv) free(nv); nv = o.values[in_index]->string; aliased = 1; }
+	if (nv) { nvcopy[0] = nv[0]; nvcopy[1] = nv[0] ? nv[1] : 0; nvcopy[2] = 0; }
 
 	rc = cfg_opt_setnstr(&o, nv, in_index);
 
@@ -278,8 +281,8 @@ static void b_opt_setnstr(cfg_type_t t, unsigned n, unsigned idx)
 			unsigned at = (in_flags & CFGF_RESET) ? 0 : (in_index < in_n ? in_index : in_n);
 			CHECK("C09", o.flags & CFGF_MODIFIED, "a successful string setter marks the option modified");
 			CHECK("C09", o.nvalues == ((in_flags & CFGF_RESET) ? 1 : (in_index < in_n ? in_n : in_n + 1)), "string setter: count as the store prescribes");
-			CHECK("C09,C16", nv ? (o.values[at]->string != nv && strcmp(o.values[at]->string, nv) == 0) : o.values[at]->string == NULL,
-			      "string setter stores a private copy with the same bytes");
+			CHECK("C09,C16,C07", nv ? (o.values[at]->string != NULL && (aliased || o.values[at]->string != nv) && strcmp(o.values[at]->string, nvcopy) == 0) : o.values[at]->string == NULL,
+			      "string setter stores a private copy with the same bytes (also when the new value is the slot's own current string)");
 			for (unsigned i = 0; i < NV; i++)
 				if (!(in_flags & CFGF_RESET) && i < in_n && i != in_index)
 					CHECK("C09", o.values[i] == s.slot[i] && o.values[i]->string == olds[i], "string setter: the other values keep their place and content");
